@@ -31,6 +31,7 @@ func TestReplay(t *testing.T) {
 func registerAll() {
 	ev.Register("C06", "labelprog", checkC06)
 	ev.Register("C01", "policy-events", checkC01)
+	ev.Register("C01", "nr-sweep", checkC01Sweep)
 	ev.Register("C02", "grid", checkC02)
 	ev.Register("C07", "policy", checkC07)
 	ev.Register("C08", "kernel", checkC08)
